@@ -218,6 +218,8 @@ class C12(Prop):
                     continue
                 ns = []
                 pick = rng.sample(subm, min(len(subm), rng.randint(1, 5)))
+                if rng.random() < 0.3:                  # everything the algorithm may have placed finishes
+                    pick = [u for o in ops if o[0] == 'submit' for u, p, _r, _c in o[1] if not p]
                 for u in pick:
                     s = rng.choice(LATE) if rng.random() < 0.75 else rng.choice(TSTATES)
                     ov = -1
@@ -237,7 +239,7 @@ class C12(Prop):
         return {'kind': kind, 'consts': consts, 'ops': ops}
 
     def cases(self, rng, tier):
-        n = 320 if tier == 'quick' else 5000
+        n = 1000 if tier == 'quick' else 8000
         for i in range(n):
             yield self.gen(rng, 'rr' if i % 2 == 0 else 'bf', big=(tier != 'quick'))
         if tier == 'thorough':
@@ -466,8 +468,9 @@ class C12(Prop):
     def signature(self, case, obs, clause):
         cond = 'any'
         if obs and clause == 'bf_used_zero':
-            errs = set(r['err'] for o, r in zip(case['ops'], obs['per_op']) if o[0] == 'tstates' and r['err'])
-            cond = 'update_tasks-raised-' + '+'.join(sorted(errs)) if errs else 'no-exception'
+            # the first task-state message that update_tasks left with an exception
+            errs = [r['err'] for o, r in zip(case['ops'], obs['per_op']) if o[0] == 'tstates' and r['err']]
+            cond = 'update_tasks-raised-' + errs[0] if errs else 'no-exception'
         elif clause == 'bound_once':
             adds = [p for o in case['ops'] if o[0] == 'add' for p, _, _ in o[2]]
             cond = 'pilot-added-twice' if len(adds) != len(set(adds)) else 'no-readd'
